@@ -15,7 +15,7 @@ fn fmt_stub2(_a: core::fmt::Arguments<'_>) -> String {
 // @harness c01_write_data_zero_once
 // @props C01 C10 C16 C04
 // @tier quick
-// @cost 60
+// @cost 26
 // @timeout 900
 // @needs WD
 // @desc the whole body of do_write_data_file (backend, COW helpers and the new-cluster registry shimmed; lazily created futures modelled as closures): a write into a freshly allocated cluster first zeroes the WHOLE cluster (one cluster-aligned, cluster-sized request), exactly once -- the registry flag flips so nobody zeroes again -- and only then writes data; with a copy-on-write source the whole-cluster merge runs after the zeroing, the cluster is unregistered, the data is synced, and the caller's bytes are not written a second time; a cluster that is not (or no longer) registered as new is written directly, never zeroed; the data request goes to host cluster + in-cluster offset with the caller's length
